@@ -59,6 +59,16 @@ class Row:
         self.frame = frame
 
 
+class Labels:
+    """Index labels of the rows of a (filtered) frame: `df.index[mask]`."""
+
+    def __init__(self, frame):
+        self.frame = frame
+
+
+BYLABEL = 'selected by index label (duplicated labels select extra rows)'
+
+
 class Cell:
     def __init__(self, frame, col):
         self.frame, self.col = frame, col
@@ -119,6 +129,10 @@ def ev(n, env):
             v = ev(n.value, env)
             if isinstance(v, Frame):
                 return ('loc', v)
+        if n.attr == 'index':
+            v = ev(n.value, env)
+            if isinstance(v, Frame):
+                return Labels(v)
         return None
     if isinstance(n, ast.Subscript):
         v = ev(n.value, env)
@@ -126,6 +140,11 @@ def ev(n, env):
                 n.slice, ast.Tuple) and len(n.slice.elts) == 2:
             m, c = n.slice.elts
             mm = ev(m, env)
+            if isinstance(mm, Labels):
+                # label-based row selection
+                f = Frame(v[1].src, v[1].filters | mm.frame.filters
+                          | {BYLABEL}, v[1].cols)
+                return Series(f, U(c))
             if isinstance(mm, Mask):
                 f = Frame(v[1].src, v[1].filters | mm.frame.filters
                           | mm.conds, v[1].cols)
@@ -151,6 +170,13 @@ def ev(n, env):
             return None
         if isinstance(v, Row):
             return Cell(v.frame, U(n.slice))
+        if isinstance(v, Labels):
+            k = ev(n.slice, env)
+            if isinstance(k, Mask):
+                return Labels(Frame(v.frame.src, v.frame.filters
+                                    | k.frame.filters | k.conds,
+                                    v.frame.cols))
+            return None
         return None
     return None
 
